@@ -626,6 +626,12 @@ def check(case, cc):
     check_outputs(case, cc, fmt, sel, passes, extra, requested, reduction, result, cap, produced)
 
 
+def lis_implied_pass_without_requested(passes, requested):
+    """The situation of the known finding: some implied-X log pass holds none of the requested channels."""
+    want = {r.strip() for r in requested}
+    return any(p['implied_x'] and not any(nm.strip() in want for nm in p['names'][1:]) for p in passes)
+
+
 def check_outputs(case, cc, fmt, sel, passes, extra, requested, reduction, result, cap, produced):
     seen = set()
 
@@ -648,7 +654,7 @@ def check_outputs(case, cc, fmt, sel, passes, extra, requested, reduction, resul
         if fmt == 'LIS' and requested and sig in ('failed:exc:TypeError@TotalDepth/LIS/core/FrameSet.py:__init__',
                                                   'failed:exc:AttributeError@TotalDepth/LIS/core/FrameSet.py:__init__'):
             sig = SIG_LIS_CHANNELS      # the set of names reaches FrameSet, which wants a list of channel indexes
-        if fmt == 'LIS' and requested and 'None of the channels' in why and 'is in Log Pass' in why:
+        if fmt == 'LIS' and requested and 'None of the channels' in why and 'is in Log Pass' in why and lis_implied_pass_without_requested(passes, requested):
             # residue of the repair of C11-lis-channels: an implied-X log pass that holds none of the requested channels
             # is refused (no X axis can be loaded for it) instead of being written with its X column alone
             sig = 'failed:lis-implied-x-pass-holds-none-of-the-requested-channels'
